@@ -67,7 +67,7 @@ func (fx *FnCtx) exec(st *State, s ast.Stmt) []outcome {
 				}
 				goal := fx.specBool(fx.envAt(st, s.Pos()), c.Expr)
 				fx.emit(st, "at:assert["+c.Label+"]", "stmt-assert", c.Tags, goal, c.Src, fx.pos(s))
-				st.assume(goal)
+				st.assume(fx.assumeAfterAssert("at:assert["+c.Label+"]", goal))
 				fx.stmtAssertHit[c] = true
 			}
 		}
